@@ -8,8 +8,10 @@
 (* call what the handle shows of itself: return value, pcm position,       *)
 (* ready state, current link and the raw offset the next page is looked    *)
 (* for at (StateAsModelled).  A call the model does not cover (time and    *)
-(* lapped seeks, half rate, crosslap, filters, faults) ends the comparison *)
-(* for that handle until it is opened again.                               *)
+(* faults, a refused half-rate switch) ends the comparison                 *)
+(* for that handle until it is opened again.  Covered meanwhile: the time *)
+(* seeks (the position the time stands for is taken from the harness, one  *)
+(* off allowed), all five lapped seeks and ov_crosslap.                     *)
 (* Differences are fidelity notes (DRIFT): whether the position is RIGHT   *)
 (* is decided by the rules of VFApi on the same events; what this adds is  *)
 (* that the exhaustive result of VFRead_MC is a result about this code.    *)
@@ -52,7 +54,17 @@ ReadInt(F, LT, vf, e) ==
        IF m <= 0 THEN [ret |-> OV_EINVAL, vf |-> [r.vf EXCEPT !.d = [@ EXCEPT !.ret = r.dl.j + r.vf.d.centerW], !.off = r.dl.t0], dl |-> NoDelivery]
        ELSE [ret |-> m * e.word * chof(r.vf), vf |-> [r.vf EXCEPT !.d = [@ EXCEPT !.ret = r.dl.j + r.vf.d.centerW + m], !.off = r.dl.t0 + BK!ShlI(m, r.vf.hs)], dl |-> r.dl]
 Init == l = 1 /\ scn = 1 /\ files = <<>> /\ H = <<>> /\ ncmp = 0
-Handled == {"ReadF", "ReadI", "RawSeek", "PcmSeek", "PcmSeekPage", "HalfRate"}
+Handled == {"ReadF", "ReadI", "RawSeek", "PcmSeek", "PcmSeekPage", "HalfRate", "PcmSeekLap", "PcmSeekPageLap", "RawSeekLap", "TimeSeek", "TimeSeekPage", "TimeSeekLap", "TimeSeekPageLap"}
+Seeks == Handled \ {"ReadF", "ReadI"}
+\* a time is turned into a sample position in double arithmetic: the model is told the position the harness expects and may be one off either way
+Timed(F, s, e) ==
+  LET op(t) == CASE e.e = "TimeSeek" -> PcmSeek(F.PG, s.LT, F.BL, s.vf, t, K)
+                 [] e.e = "TimeSeekPage" -> PcmSeekPage(F.PG, s.LT, F.BL, s.vf, t, K)
+                 [] e.e = "TimeSeekLap" -> LapSeek(F.PG, s.LT, F.BL, s.vf, "pcm", t, K)
+                 [] OTHER -> LapSeek(F.PG, s.LT, F.BL, s.vf, "page", t, K)
+      cands == { t \in {e.expect - 1, e.expect, e.expect + 1} : t >= 0 /\ Same(op(t), e, F) }
+  IN IF ~e.inrange THEN (IF e.e \in {"TimeSeek", "TimeSeekPage"} THEN [ret |-> OV_EINVAL, vf |-> s.vf] ELSE LapSeek(F.PG, s.LT, F.BL, s.vf, "einval", 0, K))
+     ELSE IF cands # {} THEN op(CHOOSE t \in cands : TRUE) ELSE op(e.expect)
 Step(e) ==
   IF e.e = "Open" /\ e.mode = "seek" /\ e.init = 0 /\ e.ret = 0 /\ "tab" \in DOMAIN e /\ e.f \in DOMAIN files /\ files[e.f].ok /\ e.hs = 0
   THEN LET F == files[e.f]  m == Opened(F.PG, e.tab, F.BL) IN
@@ -62,16 +74,28 @@ Step(e) ==
   THEN LET F == files[e.f]  m == OpenedStreaming(F.PG, F.lt, F.BL) IN
        /\ Note(Judge(m, e, F), e, m)
        /\ H' = (e.h :> [known |-> Same(m, e, F), vf |-> m.vf, f |-> e.f, LT |-> F.lt]) @@ H /\ ncmp' = ncmp + 1
-  ELSE IF "h" \in DOMAIN e /\ Known(e.h) /\ e.e \in Handled /\ (e.e \in {"RawSeek", "PcmSeek", "PcmSeekPage", "HalfRate"} => H[e.h].vf.sk) /\ (e.e = "HalfRate" => e.ret = 0)
+  ELSE IF "h" \in DOMAIN e /\ Known(e.h) /\ e.e \in Handled /\ (e.e \in Seeks => H[e.h].vf.sk) /\ (e.e = "HalfRate" => e.ret = 0)
   THEN LET s == H[e.h]  F == files[s.f]
            m == CASE e.e = "ReadF" -> Read(F.PG, s.LT, F.BL, s.vf, e.len)
                   [] e.e = "ReadI" -> ReadInt(F, s.LT, s.vf, e)
                   [] e.e = "RawSeek" -> RawSeek(F.PG, s.LT, F.BL, s.vf, e.pos)
                   [] e.e = "PcmSeek" -> PcmSeek(F.PG, s.LT, F.BL, s.vf, e.pos, K)
                   [] e.e = "HalfRate" -> HalfRate(F.PG, s.LT, F.BL, s.vf, e.flag, K)
+                  [] e.e = "PcmSeekLap" -> LapSeek(F.PG, s.LT, F.BL, s.vf, "pcm", e.pos, K)
+                  [] e.e = "PcmSeekPageLap" -> LapSeek(F.PG, s.LT, F.BL, s.vf, "page", e.pos, K)
+                  [] e.e = "RawSeekLap" -> LapSeek(F.PG, s.LT, F.BL, s.vf, "raw", e.pos, K)
+                  [] e.e \in {"TimeSeek", "TimeSeekPage", "TimeSeekLap", "TimeSeekPageLap"} -> Timed(F, s, e)
                   [] OTHER -> PcmSeekPage(F.PG, s.LT, F.BL, s.vf, e.pos, K)
        IN /\ Note(Judge(m, e, F), e, m)
           /\ H' = [H EXCEPT ![e.h] = [@ EXCEPT !.known = Same(m, e, F), !.vf = m.vf]] /\ ncmp' = ncmp + 1
+  ELSE IF e.e = "Crosslap" /\ e.h1 # e.h2 /\ Known(e.h1) /\ Known(e.h2) /\ H[e.h1].vf.sk /\ H[e.h2].vf.sk
+  THEN LET s1 == H[e.h1]  s2 == H[e.h2]  F1 == files[s1.f]  F2 == files[s2.f]
+           x == Crosslap(F1.PG, s1.LT, F1.BL, s1.vf, F2.PG, s2.LT, F2.BL, s2.vf)
+           m2 == [ret |-> x.ret, vf |-> x.vf2]
+           ok1 == x.vf1.off = e.t11 /\ x.vf1.rs = e.rs1
+       IN /\ Note(Judge(m2, e, F2) \cup (IF ok1 THEN {} ELSE {"StateAsModelled"}), e, m2)
+          /\ H' = [H EXCEPT ![e.h1] = [@ EXCEPT !.known = ok1, !.vf = x.vf1], ![e.h2] = [@ EXCEPT !.known = Same(m2, e, F2), !.vf = x.vf2]] /\ ncmp' = ncmp + 1
+  ELSE IF e.e = "Crosslap" THEN H' = [h \in DOMAIN H |-> IF h \in {e.h1, e.h2} THEN Unknown ELSE H[h]] /\ UNCHANGED ncmp
   ELSE IF "h" \in DOMAIN e /\ e.h \in DOMAIN H /\ e.e \notin {"Tell", "Query", "Info"} THEN H' = [H EXCEPT ![e.h] = Unknown] /\ UNCHANGED ncmp
   ELSE UNCHANGED <<H, ncmp>>
 Next ==
